@@ -75,10 +75,11 @@ func evaluate(text string, extra []prog.Fact, storeKind string, record bool) (*w
 	if out.ParseErr != nil || out.AnalysisErr != nil || out.Panic != "" {
 		return nil, out
 	}
-	w := &world{info: out.Info, store: prog.NewStore(storeKind), all: map[string]bool{}}
+	var atoms []ast.Atom
 	for _, f := range extra {
-		w.store.Add(f.ToAtom())
+		atoms = append(atoms, f.ToAtom())
 	}
+	w := &world{info: out.Info, store: prog.NewLoadedStore(storeKind, atoms), all: map[string]bool{}}
 	// the limit only turns a generator mistake (diverging program) into an error; models have < 1000 facts.
 	opts := []engine.EvalOption{engine.WithCreatedFactLimit(50000)}
 	if record {
